@@ -241,6 +241,22 @@ def r20_e(ctx):
                 p = fd.params()[1]
                 want = ('(0, len(%s))' % p) if name == 'startswith' else ('(-len(%s), 0)' % p)
                 ok = a is not None and norm(a) == want and norm(n.args[0]) == p
+        # ... on every path: a return that answers from something else (a single-item comparison for one-character
+        # needles, say) is a different test on a buffer of multi-character items and at the edges of the buffer
+        from .model import resolve_locals as _rl20
+        others = []
+        for r_ in [x for x in ast.walk(fd.node) if isinstance(x, ast.Return)]:
+            v_ = _rl20(fd.node, r_.value) if r_.value is not None else None
+            if v_ is None or norm(v_) != 'self.peek(%s).%s(%s)' % (want if ok else '?', name, fd.params()[1]):
+                others.append(r_)
+        if ok and others:
+            ok = False
+            rr.ob(False, {'method': name, 'other_answer': norm(others[0])[:60]})
+            rr.fail(Finding('R20.e', 'utils', fd.qual, others[0], 'Buffer.%s also answers with `%s`, which is not the comparison '
+                            'of the len(s) items next to the cursor with s: on a buffer of multi-character items, or at the '
+                            'first/last position, the two disagree' % (name, norm(others[0].value)[:50] if others[0].value is not None else 'None'),
+                            line=others[0].lineno))
+            continue
         rr.ob(ok, {'method': name, 'range': 'len(s) items %s the cursor' % ('after' if name == 'startswith' else 'before')})
         if not ok:
             rr.fail(Finding('R20.e', 'utils', fd.qual, 'Buffer.%s range' % name, 'Buffer.%s does not compare the %d..len(s) '
